@@ -323,6 +323,25 @@ func (w *World) build(t Case, over *pdkg.ProposalTerms, now time.Time) (*pdkg.Go
 			return nil, false
 		}
 	}
+	if t.Mutation == "sig-of-other-vote" {
+		// the entitled member's genuine signature over the OPPOSITE vote, transplanted onto this packet: the signature
+		// must cover the action, an acceptance cannot be replayed as a rejection (and vice versa)
+		var other *pdkg.GossipPacket
+		switch t.Kind {
+		case "accept":
+			other = &pdkg.GossipPacket{Packet: &pdkg.GossipPacket_Reject{Reject: &pdkg.RejectProposal{Rejector: w.PB}}}
+		case "reject":
+			other = &pdkg.GossipPacket{Packet: &pdkg.GossipPacket_Accept{Accept: &pdkg.AcceptProposal{Acceptor: w.PB}}}
+		default:
+			return nil, false
+		}
+		sig, err := signer.Scheme().AuthScheme.Sign(signer.Key, dkg.VerifMessageForSigning(BeaconID, other, terms))
+		if err != nil {
+			panic(err)
+		}
+		pkt.Metadata = &pdkg.GossipMetadata{BeaconID: BeaconID, Address: claimed.Address, Signature: sig}
+		return pkt, true
+	}
 	sig, err := signer.Scheme().AuthScheme.Sign(signer.Key, dkg.VerifMessageForSigning(BeaconID, pkt, terms))
 	if err != nil {
 		panic(err)
